@@ -705,35 +705,17 @@ func (co *ClipperOffset) doSquare(path Path64, j, k int) {
 }
 
 func intersectPoint(pt1a, pt1b, pt2a, pt2b PointD) PointD {
-	if isAlmostZero(pt1a.X - pt1b.X) {
-		if isAlmostZero(pt2a.X - pt2b.X) {
-
-			return PointD{X: 0, Y: 0}
-		}
-		m2 := (pt2b.Y - pt2a.Y) / (pt2b.X - pt2a.X)
-		b2 := pt2a.Y - m2*pt2a.X
-		return PointD{X: pt1a.X, Y: m2*pt1a.X + b2}
-	}
-
-	if isAlmostZero(pt2a.X - pt2b.X) {
-		m1 := (pt1b.Y - pt1a.Y) / (pt1b.X - pt1a.X)
-		b1 := pt1a.Y - m1*pt1a.X
-		return PointD{X: pt2a.X, Y: m1*pt2a.X + b1}
-	}
-
-	m1 := (pt1b.Y - pt1a.Y) / (pt1b.X - pt1a.X)
-	b1 := pt1a.Y - m1*pt1a.X
-
-	m2 := (pt2b.Y - pt2a.Y) / (pt2b.X - pt2a.X)
-	b2 := pt2a.Y - m2*pt2a.X
-
-	if isAlmostZero(m1 - m2) {
+	// parametric form on coordinate differences: the slope/intercept form
+	// (y = m*x + b) cancels catastrophically when a line is nearly, but
+	// not exactly, vertical, and for coordinates far from the origin
+	d1x, d1y := pt1b.X-pt1a.X, pt1b.Y-pt1a.Y
+	d2x, d2y := pt2b.X-pt2a.X, pt2b.Y-pt2a.Y
+	den := d1x*d2y - d1y*d2x
+	if den == 0 {
 		return PointD{X: 0, Y: 0}
 	}
-
-	x := (b2 - b1) / (m1 - m2)
-	y := m1*x + b1
-	return PointD{X: x, Y: y}
+	t := ((pt2a.X-pt1a.X)*d2y - (pt2a.Y-pt1a.Y)*d2x) / den
+	return PointD{X: pt1a.X + t*d1x, Y: pt1a.Y + t*d1y}
 }
 
 func almostZero(value float64) bool {
